@@ -7,7 +7,7 @@
 (* the real code.                                                                            *)
 EXTENDS LuaLex, GenSpacing, Bytes, LuaStr, FiniteSets
 Names == <<"a", "a1", "_", "e", "x", "and", "end", "not", "or", "then", "nil",
-           "1", "12", "1.", ".5", "1.5", "0x1", "0xa", "0xe", "1e1", "1e+1", "0b1", "1_0",
+           "1", "12", "-1", "-0.5", "1.", ".5", "1.5", "0x1", "0xa", "0xe", "1e1", "1e+1", "0b1", "1_0",
            "..", "...", ".", "-", "+", "*", "/", "//", "%", "^", "#",
            "[", "]", "[[s]]", "[=[s]=]", "=", "==", "~=", "<", "<=", ">", ">=", ":", "::",
            "'s'", "\"s\"", "(", ")", "{", "}", ",", ";",
@@ -28,7 +28,8 @@ Joined(t1, t2, m) == t1 \o (IF Separates(m, t1, t2) THEN <<32>> ELSE <<>>) \o t2
 Holds(t1, t2, m) == LET r == Lex(Joined(t1, t2, m), TRUE) IN r.ok /\ Lexemes(r) = Self(t1) \o Self(t2)
 \* a separator that is not needed (reported for information only)
 Needless(t1, t2, m) == Separates(m, t1, t2) /\ LET r == Lex(t1 \o t2, TRUE) IN r.ok /\ Lexemes(r) = Self(t1) \o Self(t2)
-ASSUME \A t \in Toks : Lex(t, TRUE).ok /\ Len(Lex(t, TRUE).toks) = 1
+\* every lexeme is one token, except the negative numerals `-1`, `-0.5` (one push of the number writer, two tokens)
+ASSUME \A t \in Toks : Lex(t, TRUE).ok /\ Len(Lex(t, TRUE).toks) = (IF t[1] = 45 /\ Len(t) > 1 /\ t[2] \in 48..57 THEN 2 ELSE 1)
 VARIABLES t1, t2
 Init == t1 \in Toks /\ t2 = <<>>
 Next == t2 = <<>> /\ t2' \in Toks /\ UNCHANGED t1
